@@ -99,6 +99,34 @@ def rule_E2(ctx, R):
             res.bad(Violation("E2", f["path"], label.split("::")[1], "%s: %s" % (label, bad), *_floc(f)))
         else:
             res.ok(label)
+    # RawLock::poison of a collection forwards the kill to every leaf (an owned collection is ONE leaf of an enclosing
+    # collection: the recovery code kills it through this method when it cannot release it)
+    from rules_struct import rawlock_impl_fns
+    for adt, name, f in rawlock_impl_fns(ctx, set(rules_alg.COLL_LABEL)):
+        if name != "poison":
+            continue
+        label = rules_alg.COLL_LABEL[adt] + "::poison"
+        bad = None
+        for n in (2, 3):
+            paths, err = explore(ctx, f, n, "W", "KILL", faults=0)
+            if err:
+                bad = "undecided: " + err
+                break
+            for p in paths:
+                if p.kind == "unwind" and any(e["k"] in ("PANIC", "ASSERT_FAIL") for e in p.events):
+                    bad = "panics instead of killing its leaves"
+                if p.kind == "ret":
+                    killed = sorted(set(_leaf_index(e["recv"]) for e in p.ev("KILL") if _leaf_index(e.get("recv")) is not None))
+                    if killed != list(range(n)):
+                        bad = "kills leaves %s of %d" % (killed, n)
+            if not any(p.kind == "ret" for p in paths):
+                bad = bad or "never returns"
+            if bad:
+                break
+        if bad:
+            res.bad(Violation("E2", f["path"], "poison", "%s: %s" % (label, bad), *_floc(f)))
+        else:
+            res.ok(label)
     # one internal order per collection, whatever the mode (an owned collection is locked as a unit: a reader and a writer
     # of the same unit must not take its members in opposite orders)
     for (coll, addrs), d in sorted(seqs.items()):
@@ -106,7 +134,7 @@ def rule_E2(ctx, R):
             f = next(f for f, label, *_ in fns if label.startswith(coll + "::raw_read"))
             res.bad(Violation("E2", f["path"], "one-order", "%s collection: blocking write and read acquisitions take the members in "
                               "different orders for addresses %s: %s" % (coll, list(addrs), d), *_floc(f)))
-    res.need(24, "collection lock operations")
+    res.need(28, "collection lock operations")
     return res
 
 
